@@ -686,7 +686,13 @@ fn offset_width_family(run: &Run) {
 /// searchRange fits the 16-bit field; 4096 is the first that does not.
 fn many_tables_case(run: &Run, n: usize, l: &mut Local) {
     let case = json!({"family":"many_tables","n":n});
-    let tables: Vec<([u8; 4], Vec<u8>)> = (0..n).map(|i| (format!("{i:04x}").into_bytes().try_into().unwrap(), vec![(i % 251) as u8])).collect();
+    // n - 1 generated tags "0000".."fffe" plus a 16-byte `head` (so that the whole-file checksum clause
+    // applies); with 65535 tables (the largest numTables) all tags are generated
+    let with_head = n < 65535;
+    let mut tables: Vec<([u8; 4], Vec<u8>)> = (0..n - with_head as usize).map(|i| (format!("{i:04x}").into_bytes().try_into().unwrap(), vec![(i % 251) as u8])).collect();
+    if with_head {
+        tables.push((*b"head", (0..16u8).map(|i| 0x80 | i).collect()));
+    }
     let model: BTreeMap<[u8; 4], Vec<u8>> = tables.iter().cloned().collect();
     l.builds += 1;
     let file = match guard(|| {
@@ -983,13 +989,14 @@ fn body(run: &Run, replay: Option<&Value>) {
     offset_width_family(run);
     {
         let mut l = Local::new();
-        for n in [255usize, 256, 4095, 4096] {
+        let counts: Vec<usize> = if run.tier == Tier::Quick { vec![255, 256, 4095, 4096, 4097, 32767, 32768, 40000, 65535] } else { vec![255, 256, 4095, 4096, 4097, 8191, 8192, 16383, 16384, 32767, 32768, 32769, 40000, 49152, 65534, 65535] };
+        for n in counts.iter().copied() {
             many_tables_case(run, n, &mut l);
         }
         run.observe_many(&l.all, &l.nontrivial);
         run.evals(l.builds);
-        run.count("many_table_fonts", 4);
-        run.bound("many_tables", json!("fonts of 255, 256, 4095 and 4096 one-byte tables (4096 = first count whose searchRange does not fit 16 bits)"));
+        run.count("many_table_fonts", counts.len() as u64);
+        run.bound("many_tables", json!(format!("fonts of {counts:?} tables (one byte each, generated tags, plus a 16-byte head unless 65535): 4096 = first count whose searchRange does not fit 16 bits (search fields judged for 1..4095 only), 32768 = first count with the top bit of numTables set, 65535 = largest numTables")));
     }
     match run.tier {
         Tier::Quick => {
